@@ -270,7 +270,7 @@ def make_run_one(seq, variant='plain', flip=0, acc=None):
     A = alpha()
     seq = tuple(seq)
     decisions = ref_decisions(seq)
-    logging.disable(logging.CRITICAL)
+    logging.disable(logging.NOTSET)  # records are built and formatted by boot._FormatAndDrop, then dropped
 
     def run_one(chooser):
         loop = vloop.VLoop(chooser, reorder_ready=False)
